@@ -1066,26 +1066,52 @@ def x11(e: Engine, rep: Report):
             if 'cb' in (after_cb.get(c.id) or ()):
                 continue         # the reply the application shaped
             rcv = c.ast.func.value
-            code = None
-            if isinstance(rcv, ast.Call) and \
-                    ast.unparse(rcv.func).endswith('Reply') and rcv.args and \
-                    isinstance(rcv.args[0], ast.Constant):
-                code = rcv.args[0].value
-            else:
-                code = common.reply_constant_code(e, rcv, c.ctx)
-                if code is None and isinstance(rcv, ast.Name):
-                    x2, f2 = common.origin(g, rcv, c.frame)
-                    if isinstance(x2, ast.Call) and x2.args and \
-                            ast.unparse(x2.func).endswith('Reply') and \
-                            isinstance(x2.args[0], ast.Constant):
-                        code = x2.args[0].value
-            n += 1
-            rep.evaluations += 1
-            if code is None:
-                rep.unknown('X11', where, 'refusal `%s`' % c.text(40),
-                            'cannot read the code of this reply',
-                            loc=c.loc())
-                continue
+
+            def codes_of(x, fr, depth=0):
+                """codes the reply object x may carry (None = unknown)"""
+                if depth > 6:
+                    return [None]
+                if isinstance(x, ast.Constant) and x.value is None:
+                    return []
+                if isinstance(x, ast.Call) and \
+                        ast.unparse(x.func).endswith('Reply') and x.args \
+                        and isinstance(x.args[0], ast.Constant):
+                    return [x.args[0].value]
+                k = common.reply_constant_code(e, x, fr.ctx) if isinstance(
+                    x, (ast.Name, ast.Attribute)) else None
+                if k is not None:
+                    return [k]
+                if isinstance(x, ast.Name):
+                    x2, f2 = common.origin(g, x, fr)
+                    if x2 is not x:
+                        return codes_of(x2, f2, depth + 1)
+                    return [None]
+                if isinstance(x, ast.Call):
+                    vals = common.values_of(g, x, fr)
+                    if len(vals) == 1 and vals[0][0] is x:
+                        return [None]
+                    out = []
+                    for v2, f2 in vals:
+                        out += codes_of(v2, f2, depth + 1)
+                    return out
+                return [None]
+            for code in codes_of(rcv, c.frame) or [None]:
+                n += 1
+                rep.evaluations += 1
+                if code is None:
+                    rep.unknown('X11', where, 'refusal `%s`' % c.text(40),
+                                'cannot read the code of this reply',
+                                loc=c.loc())
+                    continue
+                _x11_check(rep, where, meth, cb, code, c)
+    if n < 6:
+        rep.error('anchor vanished: pre-callback refusals of MAIL / RCPT '
+                  '(%d < 6)' % n)
+
+
+def _x11_check(rep, where, meth, cb, code, c):
+    if True:
+        if True:
             rep.check(str(code) in PRE_CALLBACK_REFUSALS, 'X11', where,
                       'refusal %s before the %s callback' % (code, cb),
                       '%s refuses the command with %s before the '
@@ -1097,6 +1123,3 @@ def x11(e: Engine, rep: Report):
                           meth, code, sorted(PRE_CALLBACK_REFUSALS)),
                       loc=c.loc(), reason=PRE_CALLBACK_REFUSALS.get(
                           str(code), ''))
-    if n < 6:
-        rep.error('anchor vanished: pre-callback refusals of MAIL / RCPT '
-                  '(%d < 6)' % n)
